@@ -435,6 +435,47 @@ func (H) execConc(x *common.Exec, sc *Scenario) {
 	for _, r := range allRegs {
 		clients[r.client] = true
 	}
+	// Every single invocation happens while a compatible registration of that
+	// client exists: not before its AddQuery was invoked and not after its
+	// remove function has returned.
+	updByID := map[int]*upd{}
+	for _, us := range upds {
+		for _, u := range us {
+			updByID[u.id] = u
+		}
+	}
+	for _, cs := range callsBy {
+		for _, c := range cs {
+			u := updByID[c.note]
+			if u == nil {
+				continue // the updater has not recorded the call yet (cannot happen after AllDone)
+			}
+			x.Oblige(1)
+			covered := false
+			var why []string
+			for _, r := range allRegs {
+				if r.client != c.client {
+					continue
+				}
+				ok := false
+				for _, p := range u.paths {
+					if compat(r.q, p) {
+						ok = true
+					}
+				}
+				if !ok {
+					continue
+				}
+				if r.addInv < c.stamp && (r.rmRet == 0 || c.stamp < r.rmRet) {
+					covered = true
+				}
+				why = append(why, fmt.Sprintf("query %v added at [%d,%d] removed at [%d,%d]", r.q, r.addInv, r.addRet, r.rmInv, r.rmRet))
+			}
+			if !covered {
+				x.Violate("C06/offered-outside-registration", "client %d was offered notification %d over %v at %d, when none of its compatible registrations existed: %v", c.client, c.note, u.paths, c.stamp, why)
+			}
+		}
+	}
 	nu := 0
 	for _, us := range upds {
 		for _, u := range us {
@@ -494,5 +535,7 @@ type dispatch struct {
 func (d *dispatch) Update(n interface{}) {
 	note := n.(int)
 	ti := note % 100
+	// a real client does work here (queue insertion under a lock): a scheduling point
+	simrt.Yield("client-update")
 	(*d.sink)[ti] = append((*d.sink)[ti], call{client: d.id, note: note, stamp: simrt.Stamp()})
 }
